@@ -6,6 +6,89 @@ VERIF = os.path.dirname(os.path.dirname(os.path.abspath(__file__)))
 TECH = "bounded symbolic execution of the real Rust code (Kani 0.68 / CBMC 6.11, SAT: CaDiCaL); counterexamples replayed natively"
 
 CLAIMS = {
+    "C01": {
+        "text": "Bounded model checking of the real receive path in two layers. Layer 1 (transport half): the real ReadConnection::read_from_socket "
+                "from every concrete (buffer length, read cursor) state of the small-constant build, with symbolic buffered bytes and one symbolic transport "
+                "step (kind, chunk length 1..=8, chunk bytes): bytes are appended in order, none lost or duplicated, the call returns exactly at a chunk ending "
+                "in NUL, plants the sentinel, grows by one step when exactly full, and leaves a state of the same family on error/pending - the inductive step "
+                "for any number of reads and any partition of the stream. Layer 2 (frame half): the real read_message on a pre-loaded buffer holding two frames "
+                "of arbitrary bytes: each receive yields that frame's own verdict (reference JSON-u8 recogniser), consumes exactly that frame, and the cursors "
+                "reset after the last one.",
+        "design_ref": "DESIGN.md section 3 (C01) and section 12 (what changed in the build phase)",
+        "note": "Small-constant build (BUFFER_SIZE=8, MAX_BUFFER_SIZE=32). Layer 2 decodes `u8` only (frames <= 3 bytes) and starts from a pre-loaded buffer; "
+                "the composition of the two layers and the public receive_call/receive_reply wrappers (nested coroutines, not encodable - DESIGN 12) are argued in prose, not solved. "
+                "Stubs: fmt, tracing level, serde_json error positions, memchr loop crate. Scripted ReadHalf honours the trait contract.",
+    },
+    "C02": {
+        "text": "Bounded model checking of the real WriteConnection::enqueue / enqueue_call / flush / send_* from concrete (buffer length, fill position) states of the "
+                "small-constant build with symbolic messages: the buffer receives exactly the expected document bytes plus one NUL at the fill position, earlier bytes untouched, "
+                "position advanced by len+1; a refused serialization contributes nothing and the connection stays usable; flush writes exactly the filled prefix in one write "
+                "(none when empty) and resets the position only after the write. Each instance is one inductive step; the family covers every (len,pos) in the thorough tier.",
+        "design_ref": "DESIGN.md section 3 (C02)",
+        "note": "Small-constant build; messages: Call<Empty> with 8 flag sets, Reply<()> with 3 continues values, Reply<&str> of one symbolic ASCII char, an unserializable value. "
+                "Histories are covered by induction over steps (prose), each step is a solver verdict. Stubs as listed in the evidence.",
+    },
+    "C03": {
+        "text": "Differential bounded model checking: zlink's to_slice and the real serde_json::to_writer run on the same symbolic value inside one formula, for every buffer "
+                "capacity 0..=N: equal length and bytes on success, BufferTooSmall exactly when the capacity is too small, never a byte written past the offered space, no raw "
+                "control byte. Values: every Unicode scalar as char/str/key, all ASCII pairs, full ranges of the integer types through the real itoa, non-finite floats, the serde "
+                "shapes (option, unit, newtype, tuple, struct, four enum variant kinds, sequences, maps, bytes, nesting), accepted and refused map-key kinds.",
+        "design_ref": "DESIGN.md section 3 (C03)",
+        "note": "Strings <= 2-3 scalars, collections <= 2 elements, depth <= 2. Finite floats: ryu::Buffer::format_finite is stubbed on both sides by a harness-chosen text "
+                "(digit generation is third-party); only the finite/non-finite classification is the real code there. Production buffer constants are irrelevant (to_slice hook).",
+    },
+    "C05": {
+        "text": "Bounded model checking of zlink's serde impls at the serde data-model level: Call<M>'s hand-written Serialize/Deserialize, Reply<T>, the output of the real "
+                "ReplyError derive and varlink_service::{Method, Error} are driven through a token-level Serializer/Deserializer written from serde_json's dispatch rules. One "
+                "instance per (set of present members, member order) - all 1631 for Call with six possible members in the thorough tier - with all values symbolic: flags are "
+                "recognised in any position, absent = false, hidden from the method type, other members passed through; errors/replies decode from any order; encode shapes "
+                "and round trips hold; `parameters` absent/null/{} for field-less messages.",
+        "design_ref": "DESIGN.md section 3 (C05)",
+        "note": "JSON text is not in the formula: the token deserializer models which visit_* serde_json calls for each value kind; that model is cross-checked natively against the real "
+                "serde_json on every token tree the harness bodies build in smoke mode (./check --selftest). Unit-output proxies (`{\"parameters\":{}}` for `()`) are not covered "
+                "(needs receive_reply on text). Known findings: `parameters: {}` rejected for field-less derived errors, service errors and GetInfo.",
+    },
+    "C06": {
+        "text": "Bounded model checking of the real ReplyStream::poll_next with a symbolic number of owed replies (0..=3) and a symbolic script of receive outcomes (continuing reply, "
+                "final reply, method error, transport error; receive futures optionally pending): a receive is started only while a reply is owed, items come out in order, the owed "
+                "count drops exactly on final replies and method errors, the stream ends exactly when nothing is owed or after a transport error and stays ended. Chain bookkeeping "
+                "(reply_count = number of non-oneway calls, one write, documents in order) is checked on the real chain_call/append with symbolic flags.",
+        "design_ref": "DESIGN.md section 3 (C06)",
+        "note": "The stream is driven through the public doc-hidden ReplyStream::new with a harness receive closure, so Chain::send's own closure (receive_reply on JSON text) is not in the "
+                "formula; a change that alters how Chain::send configures the stream is only seen by chain_counts if it shows in the counts (seed C06-B is missed, see DESIGN 11).",
+    },
+    "C07": {
+        "text": "Bounded model checking of cancel safety at the only suspension point of a receive: the real read_from_socket from every concrete state of the small build with a symbolic "
+                "transport step, where at every Pending a symbolic choice drops the future and a new receive is started: final buffer content, cursors and result equal the reference "
+                "model of an uninterrupted receive. A relational variant runs two real connections on the same script, one cancelled at symbolic points, one not, and compares them.",
+        "design_ref": "DESIGN.md section 3 (C07)",
+        "note": "One transport step per call in the quick tier (inductive step), two in the thorough tier where it finishes; small-constant build; the decode step after the read is synchronous "
+                "and has no suspension point. The server loop that relies on this guarantee is not encoded.",
+    },
+    "C12": {
+        "text": "Bounded model checking of frames produced by the real #[proxy] expansion of a fixed 9-method corpus trait (no-arg, scalars, &str, Option, renamed method, renamed parameter, "
+                "more, oneway, digit in name) for symbolic argument values: the chain_<m>() and chain-extension forms enqueue byte for byte the call the declaration denotes (method path, "
+                "wire names, omitted None, flags).",
+        "design_ref": "DESIGN.md section 3 (C12)",
+        "note": "Frame-equality part only, on the chain forms (sync enqueue + one flush). The plain async method is a 4-deep coroutine nest that CBMC cannot encode (DESIGN 12), so its frame is "
+                "compared natively only (selftest), not by the solver. Quantifier over traits is replaced by a fixed corpus. Known findings: chain forms ignore parameter renames, send None as null, drop `more`.",
+    },
+    "C13": {
+        "text": "Bounded model checking of the real IDL parser per grammar production against reference recognisers written from the Varlink grammar: interface_name, field_name, type_name and "
+                "whitespace/comment productions on 4-6 arbitrary ASCII bytes (consumed length = longest grammatical match, accepted iff grammatical, never panics); type / typedef / method / "
+                "error productions on a corpus of base texts with one arbitrary byte at every position (accept/reject, consumed length and top-level constructor equal the reference).",
+        "design_ref": "DESIGN.md section 3 (C13)",
+        "note": "Per production, not whole-interface; texts of the mutation family are corpus texts with one symbolic byte (all 128 ASCII values) at a concrete position. Member order across kinds and "
+                "layout independence of whole interfaces are not claimed.",
+    },
+    "C17": {
+        "text": "Bounded model checking on the small-constant build: inbound, the real read_from_socket fed a frame of symbolic size 1..=MAX+2*STEP (or never terminated) in fixed chunkings is accepted "
+                "iff it ends within the limit, refused with BufferOverflow exactly when the limit is reached, and the buffer never exceeds the limit (also asserted in every C01 step instance); "
+                "outbound, enqueue/send refuse exactly the messages that do not fit under the limit, leave position and earlier bytes untouched and write nothing. The relations between the "
+                "production constants that this argument uses are checked on the production build.",
+        "design_ref": "DESIGN.md section 3 (C17)",
+        "note": "Size = bytes on the wire including the terminator. Production values (256 / 100 MiB) themselves are out of reach; the small build shares the code and the checked constant relations.",
+    },
     "C18": {
         "text": "Bounded model checking of the real SelectAll::poll (helper level): for n<=4 futures, every readiness "
                 "vector and every 64-bit start index the solver shows the winner is the first ready future in cyclic "
@@ -19,6 +102,9 @@ CLAIMS = {
 }
 
 NOT_APPLICABLE = {
+    "C04": "the three-way untagged decode is a type local to receive_reply, reachable only through receive_reply -> read_message -> read_from_socket on JSON text: a 3-deep coroutine nest plus serde's Content buffering; the single-frame concrete probe did not finish in 55 min / 8 GB and nested coroutines make CBMC's encoding explode (DESIGN.md 12). Not encodable within reach.",
+    "C11": "needs two receive_reply calls on JSON text through the reply stream (nested coroutines, see C04) with pointer-validity reasoning over a reallocating buffer; not encodable within reach (DESIGN.md 12).",
+    "C14": "rendering goes through core::fmt (dyn Write, padding machinery) and parsing back needs whole productions on >= 20 symbolic bytes; the type production alone exceeds memory at 3 arbitrary bytes (DESIGN.md 12). Not encodable within reach.",
     "C08": "Server::run is one coroutine over select_biased!, per-iteration Vec of receive futures (unsafe re-borrow) and serde_json decoding per call; one end-to-end receive_call alone exceeded 20 min of symbolic execution, a multi-connection server loop is out of reach of bounded symbolic execution (DESIGN.md 9.1).",
     "C09": "same server-loop coroutine as C08; fault placement x interleavings over Server::run cannot be encoded within reach (DESIGN.md 9.1).",
     "C10": "same server-loop coroutine as C08 plus service streams (DESIGN.md 9.1).",
